@@ -188,6 +188,18 @@ def explicit(t, params):
         b = explicit(t[2], params)
         c = explicit(t[3], params)
         return "(%s BETWEEN %s AND %s)" % (a, b, c)
+    if k == "case":
+        if not t[1]:
+            raise NotJudged("case without when")
+        parts = []
+        for c, v in t[1]:
+            cc = explicit(c, params)
+            vv = explicit(v, params)
+            parts.append("WHEN %s THEN %s" % (cc, vv))
+        sql = "(CASE " + " ".join(parts)
+        if t[2] is not None:
+            sql += " ELSE %s" % explicit(t[2], params)
+        return sql + " END)"
     if k == "func" and t[1] in ("ABS", "COALESCE", "LENGTH", "UPPER", "MAX", "MIN", "COUNT") and t[2]:
         return "%s(%s)" % (t[1], ", ".join(explicit(x, params) for x in t[2]))
     raise NotJudged(k)
